@@ -114,6 +114,8 @@ class Sched:
         except SchedAbort:
             pass
         except BaseException as e:  # noqa: BLE001 - reported by the caller
+            if type(e).__name__ == "Stalled":  # harness.core's watchdog: never swallowed
+                raise
             t.error = e
         finally:
             sys.settrace(None)
